@@ -80,6 +80,13 @@ type Exec struct {
 	ReqSeq   int
 	ScannerID uint64
 	MoreInRegion, MoreResults *bool
+	// decoded request, for the wire-content oracle (C05)
+	ReqGet   *pb.Get
+	ReqMut   *pb.MutationProto
+	ReqCond  *pb.Condition
+	ReqCells []Cell
+	ReqScan  *pb.ScanRequest
+	Header   *pb.RequestHeader
 }
 
 // ServerConn is the server side of one client connection.
@@ -321,7 +328,7 @@ func (c *Cluster) excMsg(class, msg string, e *Exec) string {
 
 func (c *Cluster) newExec(req *Request, kind string) *Exec {
 	c.ExecSeq++
-	e := &Exec{Seq: c.ExecSeq, Kind: kind, Server: req.Conn.Server.Idx, Conn: req.Conn.ID, CallID: req.CallID, ReqSeq: req.Seq}
+	e := &Exec{Seq: c.ExecSeq, Kind: kind, Server: req.Conn.Server.Idx, Conn: req.Conn.ID, CallID: req.CallID, ReqSeq: req.Seq, Header: req.Frame.Header}
 	if c.Now != nil {
 		e.Time = c.Now()
 	}
@@ -624,6 +631,7 @@ func (c *Cluster) Execute(req *Request) []byte {
 		e := c.newExec(req, "Get")
 		g := m.GetGet()
 		e.Row = g.GetRow()
+		e.ReqGet = g
 		if g.TimeRange != nil {
 			e.Nonce = g.TimeRange.GetFrom()
 		}
@@ -670,6 +678,7 @@ func (c *Cluster) Execute(req *Request) []byte {
 		}
 		c.checkMutationCells(e, mu, cells)
 		e.Nonce = nonceOfMutation(mu, cells)
+		e.ReqMut, e.ReqCells, e.ReqCond = mu, cells, m.Condition
 		if srv.Aborted != "" {
 			return hdrExc(e, srv.Aborted, "server is going down")
 		}
@@ -825,6 +834,7 @@ func (c *Cluster) execMulti(req *Request, m *pb.MultiRequest,
 			case a.Get != nil:
 				e = c.newExec(req, "Get")
 				e.Row = a.Get.GetRow()
+				e.ReqGet = a.Get
 				if a.Get.TimeRange != nil {
 					e.Nonce = a.Get.TimeRange.GetFrom()
 				}
@@ -838,6 +848,7 @@ func (c *Cluster) execMulti(req *Request, m *pb.MultiRequest,
 				}
 				c.checkMutationCells(e, a.Mutation, cells)
 				e.Nonce = nonceOfMutation(a.Mutation, cells)
+				e.ReqMut, e.ReqCells = a.Mutation, cells
 			default:
 				c.Violate("C05 call=%d multi: action without get or mutation", req.CallID)
 				e = c.newExec(req, "Empty")
@@ -1005,6 +1016,7 @@ func (c *Cluster) execScan(req *Request, m *pb.ScanRequest,
 	srv := req.Conn.Server
 	var sc *Scanner
 	e := c.newExec(req, "ScanNext")
+	e.ReqScan = m
 	if srv.Aborted != "" {
 		return hdrExc(e, srv.Aborted, "server is going down")
 	}
@@ -1135,6 +1147,9 @@ func (c *Cluster) execScan(req *Request, m *pb.ScanRequest,
 	for i := 0; i < n; i++ {
 		k := sc.Keys[sc.Pos]
 		cells := filterCells(sc.cells(k), sc.Columns)
+		if sc.Frag > len(cells) {
+			sc.Frag = len(cells) // the row shrank under a concurrent mutation
+		}
 		cells = cells[sc.Frag:]
 		if chunky && m.GetClientHandlesPartials() && len(cells) > 1 && c.Rand.Chance(knobs.Partial) {
 			// cut: return a fragment; maybe stop the response here
